@@ -197,6 +197,46 @@ def _samples():
     return S
 
 
+def _ghost_cases():
+    return [(i, q, f) for i in range(6) for q in range(6) for f in range(7)]
+
+
+def _check_ghost(case):
+    """the three declared ghost caches (PauliTerm._circuit, PauliSum._circuits, PauliSum._is_ising) are invisible: an operation applied after a query
+    gives a result that is observably the same (terms, is_ising, is_constant, qubits, circuits, text) as the operation applied to an equal object that was never queried"""
+    from orquestra.quantum.operators import PauliSum, PauliTerm, hermitian_conjugated, convert_op_to_dict, convert_dict_to_op
+    i, q, f = case
+
+    def mk():
+        return [PauliSum([PauliTerm("Z0", 1.0), PauliTerm("X1", 0.5), PauliTerm("X1", -0.5)]),            # the X terms cancel on simplification
+                PauliSum([PauliTerm("Z0*Z1", 1.0), PauliTerm("Y0", 0.0), PauliTerm("Z1", 2.0)]),           # a zero-coefficient Y term
+                PauliSum([PauliTerm("Z0", 1.0), PauliTerm("Z1*Z2", -0.5), PauliTerm("I0", 0.25)]),         # Ising
+                PauliSum([PauliTerm("X0", 1.0), PauliTerm("Z1", 1.0)]),                                    # not Ising
+                PauliSum([PauliTerm("X0*Y1", 1.0), PauliTerm("X0*Y1", -1.0), PauliTerm("I0", 2.0)]),       # simplifies to a constant
+                PauliSum([PauliTerm("Z3", 1.0), PauliTerm("X3", 1e-12)])][i]                               # a negligible X term
+
+    queries = [lambda s: s.is_ising, lambda s: s.circuits, lambda s: [t.circuit for t in s.terms], lambda s: (s.n_qubits, s.is_constant, str(s), hash(s)),
+               lambda s: __import__("orquestra.quantum.measurements", fromlist=["Measurements"]).Measurements([(0, 1, 0, 1)] * 3).get_expectation_values(s), lambda s: s.simplify().is_ising]
+    ops = [lambda s: s.simplify(), lambda s: s + PauliTerm("Z0", 1.0), lambda s: s * 2.0, lambda s: (s * s).simplify(), lambda s: hermitian_conjugated(s),
+           lambda s: convert_dict_to_op(convert_op_to_dict(s)), lambda s: PauliSum(list(s.terms)) - PauliTerm("X1", 0.5)]
+
+    def observe(r):
+        return ([(sorted(t.operations), complex(t.coefficient)) for t in r.terms], r.is_ising, r.is_constant, sorted(r.qubits), [str(c) for c in r.circuits], str(r),
+                PauliSum(list(r.terms)).is_ising)
+    plain = observe(ops[f](mk()))
+    b = mk()
+    try:
+        queries[q](b)
+    except Exception:
+        pass
+    after = observe(ops[f](b))
+    if plain != after:
+        return False, f"operator #{i}: operation #{f} after query #{q} gives {after[:3]}, without the query {plain[:3]}"
+    if after[1] != after[6]:
+        return False, f"operator #{i}: the result of operation #{f} reports is_ising = {after[1]} but an equal operator built from its terms reports {after[6]}"
+    return True, "ok"
+
+
 def _check_sample(name):
     fn, args = _samples()[name]()
     before = _snap(args)
@@ -262,4 +302,7 @@ def build(tier, seed):
     obs.append(vprop.enum_ob("C20.snapshot.enum", OPS[:5], lambda: list(_samples()), _check_sample,
                              "bounded: deep structural snapshot of every argument before/after each listed operation on sample objects (incl. shared / aliased inputs), "
                              "and the same call twice gives equal results", exhaustive=False, timeout=600))
+    obs.append(vprop.enum_ob("C20.ghost_caches.enum", [_P + "PauliSum.simplify", _P + "PauliSum.is_ising", _P + "PauliSum.circuits", _P + "PauliTerm.circuit"], _ghost_cases, _check_ghost,
+                             "bounded: 6 operators (cancelling / zero / negligible X-Y terms) x 6 queries that fill a ghost cache x 7 operations: the operation's result is observably the "
+                             "same with and without the earlier query, and its cached answers agree with an equal operator built afresh"))
     return obs
